@@ -37,7 +37,7 @@ ErrMatches(se, ge) ==
   ELSE IF se.kind = "unexpected" THEN se.pos = ge.pos /\ se.ch = ge.ch
   ELSE IF se.kind = "utf8" THEN se.pos = ge.pos
   ELSE \* surrogate: the offending units, and a span inside the offending escape(s)
-       /\ se.region[1] <= ge.span[1] /\ ge.span[1] <= ge.span[2] /\ ge.span[2] <= se.region[2]
+       /\ SpanInside(ge.span, se.region)
        /\ IF se.variant = ge.variant THEN se.units = ge.units ELSE Range(ge.units) \subseteq Range(se.units)
 
 \* "" if the observed outcome g is the specified outcome s, else the reason
